@@ -53,7 +53,7 @@ func ParseWorkingHours(WorkingHours string) (int32, error) {
 		endHour,   _ := strconv.Atoi(endHourandMinutes[0])
 		endMin,    _ := strconv.Atoi(endHourandMinutes[1])
 
-		if startHour < 0 || startHour > 24 || endHour < 0 || endHour > 24 || startMin < 0 || startMin > 60 || endMin < 0 || endMin > 60 {
+		if startHour < 0 || startHour > 23 || endHour < 0 || endHour > 23 || startMin < 0 || startMin > 59 || endMin < 0 || endMin > 59 {
 			return IntWorkingHours, errors.New("Failed to parse the WorkingHours: Invalid hour or minute defined in working hours")
 		}
 
